@@ -63,6 +63,16 @@ type Case struct {
 	// the same session and cancel each call (context) at about the time its
 	// answer arrives, all along
 	Cancellers int `json:"cancellers,omitempty"`
+	// Missing: this many further goroutines keep asking the same session for
+	// what does not exist (an object which a registered service does not have,
+	// a service nobody registered): their requests fail, as they must, and that
+	// is nobody else's business; proxies handed out before keep working
+	Missing int `json:"missing,omitempty"`
+	// Stalled: somebody subscribed to a signal through the same session and
+	// does not read; the service emits this many events meanwhile (beyond the
+	// capacity of a subscription the events of that subscriber are shed: its
+	// loss, nobody else's)
+	Stalled int `json:"stalled,omitempty"`
 }
 
 func genCase(t *rapid.T) Case {
@@ -86,6 +96,16 @@ func genCase(t *rapid.T) Case {
 		if maxG > 8-3*c.Cancellers {
 			maxG = 8 - 3*c.Cancellers
 		}
+	}
+	if rapid.IntRange(0, 2).Draw(t, "missing") == 0 {
+		c.Missing = rapid.IntRange(1, 2).Draw(t, "nmissing")
+		maxG -= c.Missing
+		if maxG < 2 {
+			maxG = 2
+		}
+	}
+	if rapid.IntRange(0, 3).Draw(t, "stalled") == 0 {
+		c.Stalled = rapid.SampledFrom([]int{50, 150, 400}).Draw(t, "nstalled")
 	}
 	c.BigTag = rapid.SampledFrom([]int{0, 0, 2100, 5000, 70000}).Draw(t, "bigtag")
 	c.Churn = rapid.Bool().Draw(t, "churn")
@@ -128,6 +148,7 @@ func checkCase(c Case) error {
 	// services registered before everything else: unregistering one of them
 	// later moves every other entry of a list ordered by age
 	var early []bus.Service
+	var emitter *probe.Pong
 	if c.Churn {
 		for k := 0; k < 8; k++ {
 			_, actor := probe.NewPong("early", journal)
@@ -172,9 +193,12 @@ func checkCase(c Case) error {
 		defer srv.Terminate()
 		for j := 0; j < n; j++ {
 			name := fmt.Sprintf("S%d_%d", k, j)
-			_, actor := probe.NewPong(name, journal)
+			pp, actor := probe.NewPong(name, journal)
 			if _, err := srv.NewService(name, actor); err != nil {
 				return vt.Violationf("C19:setup", "NewService(%s): %v", name, err)
+			}
+			if k == 0 && j == 0 {
+				emitter = pp
 			}
 		}
 	}
@@ -228,6 +252,35 @@ func checkCase(c Case) error {
 				time.Sleep(200 * time.Microsecond)
 			}
 		}
+	}
+	stalledDone := make(chan struct{})
+	startStalled := make(chan struct{})
+	if c.Stalled > 0 && emitter != nil {
+		px, err := sess.Proxy("S0_0", 1)
+		if err != nil {
+			return vt.Violationf("C19:proxy-failed", "Proxy(S0_0): %v", err)
+		}
+		cancelSub, stalledCh, err := pong.MakePingPong(sess, px).SubscribePong()
+		if err != nil {
+			return vt.Violationf("C19:setup", "SubscribePong: %v", err)
+		}
+		defer func() {
+			// the subscriber wakes up at the end, reads what is left and leaves
+			go func() {
+				for range stalledCh {
+				}
+			}()
+			cancelSub()
+		}()
+		go func() {
+			defer close(stalledDone)
+			<-startStalled
+			for k := 0; k < c.Stalled; k++ {
+				emitter.Emit(fmt.Sprintf("e%d", k))
+			}
+		}()
+	} else {
+		close(stalledDone)
 	}
 	acceptedBefore := make([]int32, len(listeners))
 	for k, l := range listeners {
@@ -305,6 +358,50 @@ func checkCase(c Case) error {
 	} else {
 		close(churnDone)
 	}
+	missingDone := make(chan struct{})
+	stopMissing := make(chan struct{})
+	var held []bus.Proxy
+	var heldNames []string
+	if c.Missing > 0 {
+		for k := range c.Servers {
+			name := fmt.Sprintf("S%d_0", k)
+			px, err := sess.Proxy(name, 1)
+			if err != nil {
+				return vt.Violationf("C19:proxy-failed", "Proxy(%s): %v", name, err)
+			}
+			held, heldNames = append(held, px), append(heldNames, name)
+		}
+		var mw sync.WaitGroup
+		for g := 0; g < c.Missing; g++ {
+			mw.Add(1)
+			go func(g int) {
+				defer mw.Done()
+				<-start
+				for k := 0; ; k++ {
+					select {
+					case <-stopMissing:
+						return
+					default:
+					}
+					if (k+g)%2 == 0 {
+						if px, err := sess.Proxy(fmt.Sprintf("S%d_0", k%len(c.Servers)), 4242); err == nil {
+							// (a proxy of an object which does not exist: its calls fail)
+							if _, err := pong.MakePingPong(sess, px).Hello("quiet:nobody"); err == nil {
+								firstErr.Store(vt.Violationf("C19:missing-object-answers", "a call to object 4242, which no service has, was answered"))
+								return
+							}
+						}
+					} else {
+						sess.Proxy("NobodyRegisteredThis", 1)
+					}
+					time.Sleep(50 * time.Microsecond)
+				}
+			}(g)
+		}
+		go func() { mw.Wait(); close(missingDone) }()
+	} else {
+		close(missingDone)
+	}
 	cancelDone := make(chan struct{})
 	stopCancel := make(chan struct{})
 	if c.Cancellers > 0 {
@@ -352,8 +449,20 @@ func checkCase(c Case) error {
 		}
 	}()
 	close(start)
+	close(startStalled)
 	done := make(chan struct{})
-	go func() { wg.Wait(); close(stopChurn); close(stopCancel); <-churnDone; <-lateDone; <-cancelDone; close(done) }()
+	go func() {
+		wg.Wait()
+		close(stopChurn)
+		close(stopCancel)
+		close(stopMissing)
+		<-churnDone
+		<-lateDone
+		<-cancelDone
+		<-missingDone
+		<-stalledDone
+		close(done)
+	}()
 	select {
 	case <-done:
 	case <-time.After(bound):
@@ -361,6 +470,13 @@ func checkCase(c Case) error {
 	}
 	if e := firstErr.Load(); e != nil {
 		return e.(*vt.Violation)
+	}
+	// proxies handed out before the requests for missing things still work
+	for k, px := range held {
+		tag := fmt.Sprintf("held%d", k)
+		if res, err := pong.MakePingPong(sess, px).Hello(tag); err != nil || res != "r:"+tag {
+			return vt.Violationf("C19:proxy-broken", "the proxy of %q handed out before other goroutines asked for things which do not exist answered (%q, %v) to %s", heldNames[k], res, err, tag)
+		}
 	}
 	// the services registered meanwhile are registered now: requests for them
 	// succeed, from several goroutines at once
@@ -417,6 +533,12 @@ func checkCase(c Case) error {
 	}
 	if c.Late > 0 {
 		labels = append(labels, "services-registered-meanwhile")
+	}
+	if c.Missing > 0 {
+		labels = append(labels, "requests-for-missing-things-meanwhile")
+	}
+	if c.Stalled > 0 {
+		labels = append(labels, "a-subscriber-of-the-session-does-not-read")
 	}
 	if c.Objects {
 		labels = append(labels, "objects-by-reference")
